@@ -303,6 +303,7 @@ class Engine:
         self.inlined = set()
         self.const_cache = {}
         self.opaque_eq_types = {"Method", "StatusCode", "Version"}
+        self.event_hook = None              # callable(engine, event): may call engine.require(cond) to restrict the exploration
         self.auto_inline = None             # callable(engine, callee text, caller path) -> body path | None
 
     # ---------------- path enumeration ----------------
@@ -360,6 +361,12 @@ class Engine:
     def assume(self, c):
         self.pc.append(c)
         self.solver.add(c)
+
+    def require(self, c):
+        """Restrict the current path to executions satisfying c (used by checks to focus on one actor message etc.)."""
+        if not self.feasible(c):
+            raise EndPath("infeasible")
+        self.assume(c)
 
     def feasible(self, c):
         c = z3.simplify(c) if z3.is_expr(c) else c
@@ -946,7 +953,10 @@ class Engine:
             for ev in self.events:
                 if ev.ret is src:
                     rargs = ev.rargs
-            self.events.append(Event("await", name, fargs, r, site, rargs=rargs))
+            ev = Event("await", name, fargs, r, site, rargs=rargs)
+            self.events.append(ev)
+            if self.event_hook is not None:
+                self.event_hook(self, ev)
             return self.mk_enum("Poll", "Ready", [r])
         # --- origin-preserving conversions ---
         m = re.search(r"(?:as (?:std::)?(?:clone::)?Clone>::clone|as ToOwned>::to_owned|as Borrow<[^>]*>>::borrow|as AsRef<[^>]*>>::as_ref|"
